@@ -12,10 +12,10 @@
    log observed on the implementation ([drive], [drive_sound]) and compares what it
    computes with what was observed. *)
 From Eino Require Import Base.Util Model.StateLock Model.StateLockLTS Model.StateLockDrive Model.StateLockType
-  Model.StateLockCode Model.StatePlumb.
+  Model.StateLockCode Model.StatePlumb Model.StateAddNode.
 From Eino Require Import Proofs.StateLockLTS Proofs.StateLockVal Proofs.StateLockOrder Proofs.StateLockFlow
   Proofs.StateLockOwn Proofs.StateLockAcq Proofs.StateLockNest Proofs.StateLockLive Proofs.StateLockDrive Proofs.StateLock
-  Proofs.StateLockType Proofs.StateLockRun Proofs.StateLockCode Proofs.StatePlumb.
+  Proofs.StateLockType Proofs.StateLockRun Proofs.StateLockCode Proofs.StatePlumb Proofs.StateAddNode.
 From Coq Require Import Permutation Sorted.
 Open Scope N_scope.
 
@@ -362,6 +362,20 @@ Theorem stateless_graph_keeps_parent_context :
                 ps_modcalls st' = ps_modcalls st /\ ps_restored st' = ps_restored st ++ [ps_ctx st KState].
 Proof. exact stateless_graph_keeps_context. Qed.
 
+(* AddNode: the verdict [build_err_t] that Corr/C11.v evaluates on every case (and compares with what
+   AddNode / Compile did) is addNode's decision function applied to every node of every graph; every
+   public option that attaches a state handler marks the node as needing the graph state, records the
+   handler's state type on the handler's side and wraps the handler by the locking converter of that side *)
+Theorem build_err_is_add_node_decision : forall f gty nty,
+  build_err_t f gty nty = build_err_nodes f gty nty.
+Proof. exact build_err_t_is_add_node. Qed.
+
+Theorem state_handler_options_consistent :
+  forall o w hs ts need, In (o, (w, (hs, (ts, need)))) handler_options ->
+    need = true /\ hs = ts /\
+    (hs = SPre -> wrapper_is w KPre = true) /\ (hs = SPost -> wrapper_is w KPost = true).
+Proof. exact handler_options_consistent. Qed.
+
 Print Assumptions reach_included.
 Print Assumptions mutex.
 Print Assumptions held_lock_released.
@@ -389,6 +403,8 @@ Print Assumptions no_state_no_critical_section.
 Print Assumptions instance_start_is_start_block.
 Print Assumptions resume_step_is_save_then_resume.
 Print Assumptions stateless_graph_keeps_parent_context.
+Print Assumptions build_err_is_add_node_decision.
+Print Assumptions state_handler_options_consistent.
 
 (* ------------------------------------------------------------------ non-vacuity *)
 
@@ -570,3 +586,35 @@ Example ex_plumb_roundtrip :
   | None => False
   end.
 Proof. cbn. repeat split; reflexivity. Qed.
+
+Example ex_add_node :
+  add_node_err false true true false 0 0 0 = true /\ add_node_err true true true true 1 1 0 = true /\
+  add_node_err true true true true 1 1 1 = false /\
+  build_err_t [mkGraph MDag false [mkNode 1 true false None 0 []]] [0] [(1, (0, (0, 0)))] = true.
+Proof. repeat split; reflexivity. Qed.
+
+(* a node that interrupts itself and is run again (n_zero): the interrupted attempt 1 (pre-handler, one
+   ProcessState call) is followed by the re-execution 1001, whose pre-handler receives the zero value,
+   not what the attempt or the graph's input would deliver *)
+Definition ex_rr_forest : forest :=
+  [ mkGraph MDag true [ mkNode 1 true false None 1%nat []; mkNodeZ 1001 true true None 2%nat [1] true ] ].
+Definition ex_rr_final : config sstate X :=
+  match step sstate X gen_state cs_fun leaf_out merge ex_rr_forest ex_x0 (init_cfg sstate X) (ChStart 0) with
+  | Some c => run_sched sstate X gen_state cs_fun leaf_out merge ex_rr_forest ex_x0 c (repeat 0%nat 100)
+  | None => init_cfg sstate X
+  end.
+Example ex_rerun_zero_input :
+  all_final sstate X ex_rr_final = true /\
+  map (fun e => (n_id (t_node e), t_kind e, t_x e)) (c_trace ex_rr_final) =
+    [(1, KPre, ex_x0); (1, KBody 0, fst (cs_fun KPre 1 ex_x0 (gen_state 0)));
+     (1001, KPre, []); (1001, KBody 0, []); (1001, KBody 1, []); (1001, KPost, leaf_out 1001 [])] /\
+  (exists J, nth_error (c_insts ex_rr_final) 0 = Some J /\
+             is_in sstate X merge ex_rr_final 0 (mkNodeZ 1001 true true None 2%nat [1] true) []).
+Proof.
+  split; [vm_compute; reflexivity|]. split; [vm_compute; reflexivity|].
+  eexists. split; [vm_compute; reflexivity|].
+  eexists. split; [vm_compute; reflexivity|]. cbn [n_preds].
+  exists [leaf_out 1 (fst (cs_fun (KBody 0) 1 (fst (cs_fun KPre 1 ex_x0 (gen_state 0))) (snd (cs_fun KPre 1 ex_x0 (gen_state 0)))))].
+  split; [|reflexivity].
+  constructor; [|constructor]. eexists. split; [vm_compute; reflexivity|]. vm_compute. reflexivity.
+Qed.
